@@ -1234,7 +1234,7 @@ def corpus(res):
 # ---------------------------------------------------------------------------
 
 def sweep_decks(res, tier, rng):
-    n_decks = 90 if tier == 'quick' else 900
+    n_decks = 90 if tier == 'quick' else 750
     n_points = 150 if tier == 'quick' else 400
     real = []
     totals = {}
